@@ -120,7 +120,7 @@ pub fn run(ctx: &Ctx) -> i32 {
         ctx,
         "requests weighted towards 2..6 Into targets and invalid requests with two independent faults; each is expanded 8 times \
          in one process (every HashMap gets a fresh RandomState) and once in each of several freshly spawned processes; all outcomes \
-         (token text or diagnostic text) must be identical; non-trivial = at least 2 Into targets or 2 faults; distinct by request hash",
+         (token text or diagnostic text) must be identical, also between the dev-profile and a release-profile build of the macro; non-trivial = at least 2 Into targets or 2 faults; distinct by request hash",
     );
     rep.assumptions.push("detection is probabilistic: k order-sensitive items survive 8 repetitions with probability (1/k!)^7".into());
     let known = check::load_known();
@@ -272,5 +272,87 @@ pub fn run(ctx: &Ctx) -> i32 {
     }
     rep.count("cross_process_comparisons", cross);
     rep.count("processes", procs as u64);
+    // across builds: the same sources compiled with the release profile (no debug assertions, no overflow checks, full
+    // optimisation) must expand every request to the same tokens / the same diagnostic as this (dev profile) build
+    {
+        let mut srcs: Vec<String> = dnas.iter().take(ctx.scale(4000, 30000)).map(|d| request(d).0).collect();
+        // ordered enums with #[repr] and explicit discriminants, numeric edge cases of ranks: where integer handling lives
+        let mut c2 = GenCfg::full();
+        c2.kinds = vec![Kind::Enum, Kind::Struct];
+        c2.must = vec![Tr::Ord];
+        c2.repr_pct = 70;
+        c2.disc_pct = 70;
+        c2.attr_pct = 60;
+        for t in check::draw(ctx.seed, 0xC16B, ctx.scale(2000, 10000), 420) {
+            let dna = t.current();
+            let mut d = Dna::new(&dna);
+            srcs.push(gen::build(&mut d, &c2).spec.render_def_with("", true));
+        }
+        match release_driver() {
+            Err(e) => rep.inconclusive.push(e),
+            Ok(exe) => match drive(&exe, &srcs) {
+                Err(e) => rep.inconclusive.push(e),
+                Ok(lines) => {
+                    let mine: Vec<Expansion> = srcs.par_iter().map(|s| engine::expand_src(s)).collect();
+                    let mut reported = 0;
+                    for (i, (m, l)) in mine.iter().zip(lines.iter()).enumerate() {
+                        rep.count("cross_build_comparisons", 1);
+                        let same = match m {
+                            Expansion::Ok(t) => *l == format!("ok {:016x}", fnv64(t)),
+                            Expansion::Err(msg) => l.strip_prefix("err ").map(|x| msg.replace('\n', "\\n").starts_with(x)).unwrap_or(false),
+                            // a panic in either build is C17's subject, not a difference between builds
+                            Expansion::Panic(_) => true,
+                            Expansion::Unparsable(_) => l.starts_with("unparsable") || l.starts_with("err "),
+                        } || l == "panic";
+                        if !same && reported < 5 {
+                            reported += 1;
+                            rep.violations.push(Failure {
+                                msg: format!("the release build of the macro expands this request differently than the dev build: dev = {}, release = {}", outcome_text(m).chars().take(300).collect::<String>(), l.chars().take(300).collect::<String>()),
+                                dna: vec![],
+                                variant: "cross-build".into(),
+                                source: srcs[i].clone(),
+                                unit_body: None,
+                            });
+                        }
+                    }
+                },
+            },
+        }
+    }
     rep.finish()
+}
+
+/// the in-process driver with all trait features, built with the release profile
+fn release_driver() -> Result<std::path::PathBuf, String> {
+    let feats = ALL_TRAITS.iter().map(|t| t.name()).collect::<Vec<_>>().join(",");
+    let dir = "/verif/target/feat-rel";
+    let out = std::process::Command::new("cargo")
+        .args(["build", "--offline", "--quiet", "--release", "-p", "featdrv", "--no-default-features", "--features", &feats, "--target-dir", dir])
+        .current_dir("/verif/harness")
+        .env("CARGO_NET_OFFLINE", "true")
+        .output()
+        .map_err(|e| format!("cannot run cargo: {e}"))?;
+    if !out.status.success() {
+        return Err(format!("the release-profile driver does not build: {}", String::from_utf8_lossy(&out.stderr).lines().filter(|l| l.contains("error")).take(5).collect::<Vec<_>>().join(" | ")));
+    }
+    Ok(std::path::Path::new(dir).join("release").join("featdrv"))
+}
+
+/// one answer line per request (`ok <hash>` / `err <message>` / `panic` / `unparsable ..`)
+fn drive(exe: &std::path::Path, srcs: &[String]) -> Result<Vec<String>, String> {
+    use std::io::Write;
+    let mut child = std::process::Command::new(exe).stdin(std::process::Stdio::piped()).stdout(std::process::Stdio::piped()).spawn().map_err(|e| format!("spawn featdrv: {e}"))?;
+    {
+        let mut stdin = child.stdin.take().unwrap();
+        let payload: String = srcs.iter().map(|s| format!("{}\n", s.replace('\\', "\\\\").replace('\n', "\\n"))).collect();
+        std::thread::spawn(move || {
+            let _ = stdin.write_all(payload.as_bytes());
+        });
+    }
+    let o = child.wait_with_output().map_err(|e| format!("featdrv: {e}"))?;
+    let lines: Vec<String> = String::from_utf8_lossy(&o.stdout).lines().map(|l| l.to_string()).collect();
+    if lines.len() != srcs.len() {
+        return Err(format!("the release-profile driver answered {} of {} requests (it may have crashed: {:?})", lines.len(), srcs.len(), o.status));
+    }
+    Ok(lines)
 }
